@@ -221,6 +221,9 @@ def env_fingerprint(params, functions):
     return hashlib.sha1(blob.encode()).hexdigest()
 
 
+ORACLE = None     # optional callable(date_probe, params, functions) -> list of disagreement strings
+
+
 def _probe_run(o):
     import warnings
     warnings.filterwarnings("ignore")
@@ -229,14 +232,19 @@ def _probe_run(o):
     DateProbe.LOG = []
     err = None
     fp = None
+    P = F = None
     try:
         P, F = PE.set_up_policy_environment(DateProbe(d.year, d.month, d.day))
         fp = env_fingerprint(P, F)
     except Exception as e:   # the loader failing for a date is an observation, not a crash
         err = f"{type(e).__name__}: {e}"[:200]
+    extra = None
+    if ORACLE is not None:
+        # the oracle runs under the same recording date: its comparisons refine the region
+        extra = ORACLE(DateProbe(d.year, d.month, d.day), P, F, err)
     log = list(DateProbe.LOG)
     lo, hi, holes = region_from_log(log, o)
-    return o, lo, hi, sorted(holes), len(log), fp, err
+    return o, lo, hi, sorted(holes), len(log), fp, err, extra
 
 
 def _plain_run(o):
@@ -268,7 +276,7 @@ def yaml_seed_dates():
     return out
 
 
-def explore(lo, hi, jobs=16, check_endpoints=True):
+def explore(lo, hi, jobs=16, check_endpoints=True, on_region=None):
     """Cover [lo, hi] (dates) with regions.  Returns (regions, stats)."""
     t0 = time.time()
     lo_o, hi_o = lo.toordinal(), hi.toordinal()
@@ -293,14 +301,20 @@ def explore(lo, hi, jobs=16, check_endpoints=True):
             if todo:
                 # runs whose day falls into a region found by an earlier run of the same batch
                 # are redundant but harmless
-                for (oo, a, b, holes, nops, fp, err) in pool.imap_unordered(_probe_run, todo, chunksize=1):
+                for (oo, a, b, holes, nops, fp, err, extra) in pool.imap_unordered(_probe_run, todo, chunksize=1):
                     stats["probe_runs"] += 1
                     if any(r.contains(oo) for r in regions):
                         continue
                     r = Region(max(a, lo_o), min(b, hi_o), [h for h in holes if lo_o <= h <= hi_o], D.fromordinal(oo), nops, fp)
                     r.err = err
+                    r.extra = extra
                     regions.append(r)
                     cover.add(z3.Not(r.z3(o)))
+                    if on_region is not None and on_region(r):
+                        stats["stopped_early"] = True
+                        break
+                if stats.get("stopped_early"):
+                    break
             # the deciding step: is any day of the window outside every region?
             batch = []
             cover.push()
@@ -316,8 +330,8 @@ def explore(lo, hi, jobs=16, check_endpoints=True):
             if not batch:
                 break
             pending = batch
-        stats["coverage_verdict"] = "unsat"
-        if check_endpoints:
+        stats["coverage_verdict"] = "incomplete (stopped at the first violation)" if stats.get("stopped_early") else "unsat"
+        if check_endpoints and not stats.get("stopped_early"):
             pts = sorted({r.first.toordinal() for r in regions} | {r.last.toordinal() for r in regions})
             plain = {}
             for oo, fp, err in pool.imap_unordered(_plain_run, pts, chunksize=2):
